@@ -17,7 +17,7 @@ func init() {
 		Property: "C12",
 		Explanation: "STRUCT comparison lint over verifyRAs' call graph (R-C12-1: no ==/!= on pointer-to-struct operands), " +
 			"SEE compared-field table (R-C12-2), GUARD absent-on-either-side returns nil before any comparison (R-C12-3), " +
-			"PATH reporting wiring in Advertiser.handle (R-C12-4) R-C12-5 also covers DNSSL names (stored in wire form by the parser); R-C12-6 a lifetime inconsistency is reported only after equal Prefix and PrefixLength (and Preference for routes) were established for the pair.",
+			"PATH reporting wiring in Advertiser.handle (R-C12-4) R-C12-5 also covers DNSSL names (stored in wire form by the parser); R-C12-6 a lifetime inconsistency is reported only after equal Prefix and PrefixLength (and Preference for routes) were established for the pair; R-C12-7 in checkPrefixes/checkRoutes an iteration that matched a pair continues the same loop (no break/return after the first match).",
 		Assumptions: []string{
 			"Go type checker and go/ssa construction are correct",
 			"ndp option values decoded from the wire are freshly allocated (never pointer-identical to locally built ones)",
@@ -59,6 +59,7 @@ func runC12(c *Ctx) {
 	c12Fields(c, reach)
 	c12Identity(c)
 	dnsslNames(c, "R-C12-5")
+	c12NoEarlyExit(c, reach)
 	c12Granularity(c, reach)
 	c12Absent(c)
 	c12Report(c)
@@ -576,4 +577,59 @@ func c12Identity(c *Ctx) {
 		}
 		c.R.Check(n >= 1, "R-C12-6", fn+":report-paths", fn, c.pos(f.Pos()), fmt.Sprintf("%d reporting path(s)", n), ">= 1", "anchor-missing")
 	}
+}
+
+
+// c12NoEarlyExit (R-C12-7): the pair loops of checkPrefixes and checkRoutes
+// visit every pair: an iteration that found a matching pair (equal prefix and
+// length) goes on with the next element of the same loop. A `break` or
+// `return` after the first match hides an inconsistent later copy of the same
+// prefix or route in the received RA.
+func c12NoEarlyExit(c *Ctx, reach map[*ssa.Function]bool) {
+	n := 0
+	for fn := range reach {
+		name := c.fname(fn)
+		if name != "corerad.checkPrefixes" && name != "corerad.checkRoutes" {
+			continue
+		}
+		isHeader := func(h *ssa.BasicBlock) bool {
+			for _, pr := range h.Preds {
+				if h.Dominates(pr) {
+					return true
+				}
+			}
+			return false
+		}
+		bad := ""
+		for _, p := range c.pathsO("R-C12-7", fn, an.PathOpts{EmitCut: true}) {
+			// the pair was matched on this path: Prefix (and PrefixLength) established equal
+			var at *ssa.BasicBlock
+			for _, a := range p.Atoms {
+				x, y, op, ok := effCmp(a)
+				if ok && op == token.EQL && x.IsField("Prefix") && y.IsField("Prefix") && a.If != nil {
+					at = a.If.Block()
+				}
+			}
+			if at == nil {
+				continue
+			}
+			n++
+			// innermost loop header around the match test
+			var inner *ssa.BasicBlock
+			for _, h := range fn.Blocks {
+				if isHeader(h) && h.Dominates(at) && (inner == nil || inner.Dominates(h)) {
+					inner = h
+				}
+			}
+			if inner == nil {
+				continue
+			}
+			if !(p.Cut && p.CutTo == inner) {
+				bad = fmt.Sprintf("after a matching pair the path %s instead of continuing the pair loop at %s", pathKind(p), c.pos(instrPos(inner.Instrs[len(inner.Instrs)-1])))
+			}
+		}
+		c.R.Check(bad == "", "R-C12-7", name+":every-matching-pair-compared", name, c.pos(fn.Pos()), bad,
+			"an iteration that matched a pair continues with the next element of the same loop", "an inconsistent later copy of the same prefix/route in the received RA is never compared")
+	}
+	c.R.Check(n >= 4, "R-C12-7", "corerad.verify:matching-pair-paths", "", "", fmt.Sprintf("%d path(s) through a matched pair", n), ">= 4", "anchor-missing")
 }
